@@ -281,6 +281,8 @@ def attribute_sites(prog):
                     sites.append(("Field", False, m["attrs"]))
                     tref(m["type"])
             elif k == "enum":
+                if d.get("underlying"):
+                    sites.append(("TypeRef", False, d.setdefault("underlying_attrs", [])))      # the underlying type is a type reference like any other
                 for e in d["enumerators"]:
                     sites.append(("Enumerator", False, e["attrs"]))
                     for m in e["fields"] or []:
@@ -288,7 +290,7 @@ def attribute_sites(prog):
                         tref(m["type"])
             elif k == "interface":
                 for b in d["bases"]:
-                    pass    # attributes on a base reference are not written by the renderer
+                    sites.append(("TypeRef", False, b["attrs"]))     # so is the reference to a base interface
                 for o in d["ops"]:
                     sites.append(("Operation", len(o["returns"]) > 0, o["attrs"]))
                     for m in o["params"]:
@@ -308,7 +310,7 @@ def attribute_stream(ck):
     from .. import slicegen
     rng = ck.rng
     n = 1500 if ck.tier == "quick" else 20000
-    texts, mlines, fams = [], [], []
+    texts, mlines, fams, mlines_wo = [], [], [], []
     for i in range(n):
         prog = slicegen.Gen(random.Random(rng.randrange(1 << 60)), depth=2, foreign_attrs=False).program()
         sites = attribute_sites(prog)
@@ -335,17 +337,24 @@ def attribute_stream(ck):
                 lst.append((d, list(args)))
             chosen.append(place + ":" + d)
         els = [(p, r, l) for p, r, l in attribute_sites(prog) if l]
-        mlines.append("attrs %d %s" % (len(els), " ".join("%s %d %d %s" % (p, 1 if r else 0, len(l), " ".join("%s %d %s" % (hx(d) if d else "-", len(a), " ".join(hx(x) if x else "-" for x in a)) for d, a in l)) for p, r, l in els)))
+        enc = lambda els_: "attrs %d %s" % (len(els_), " ".join("%s %d %d %s" % (p, 1 if r else 0, len(l), " ".join("%s %d %s" % (hx(d) if d else "-", len(a), " ".join(hx(x) if x else "-" for x in a)) for d, a in l)) for p, r, l in els_))
+        mlines.append(enc(els))
+        # the same program without what is written on underlying types and base references (used only to tell one known defect from others)
+        special = [id(d.get("underlying_attrs")) for f in prog["files"] for d in f["defs"] if d["kind"] == "enum" and d.get("underlying_attrs")] + \
+                  [id(b["attrs"]) for f in prog["files"] for d in f["defs"] if d["kind"] == "interface" for b in d["bases"] if b["attrs"]]
+        mlines_wo.append(enc([(p, r, l) for p, r, l in els if id(l) not in special]) if special else None)
         texts.append(slicegen.render(prog))
         fams.append("+".join(sorted(set(chosen))) if len(chosen) <= 1 else "several")
     mlines = [" ".join(l.split()) for l in mlines]
     m = core.run_model("validate", mlines, chunk=2000)
+    wo_idx = [i for i, l in enumerate(mlines_wo) if l]
+    m_wo = dict(zip(wo_idx, core.run_model("validate", [" ".join(mlines_wo[i].split()) for i in wo_idx], chunk=2000)))
     o = core.run_impl("diags", ["diags - " + " ".join(hx(t) for t in ts) for ts in texts], chunk=300, timeout=120)
     ck.stream("attributes", description="well-formed generated programs with 0..5 attributes from a pool (the five built-in directives with right and wrong argument counts and arguments, wrong-case spellings, "
               "unknown directives with and without a scope prefix) written on randomly chosen elements of every kind (file, module, definitions, fields, enumerators, operations with and without return values, parameters, "
-              "return members, type references at any depth), some repeated on the same element; observable: the attribute error codes (E023-E028) against the model (the same codes, each at least as often), and no other error")
+              "return members, type references at any depth, underlying types of enums, references to base interfaces), some repeated on the same element; observable: the attribute error codes (E023-E028) against the model (the same codes, each at least as often), and no other error")
     seen = {}
-    for ts, ml, fam, mo, oo in zip(texts, mlines, fams, m, o):
+    for ci, (ts, ml, fam, mo, oo) in enumerate(zip(texts, mlines, fams, m, o)):
         ck.count("attributes", ml, kind=fam if fam.count(":") <= 1 and len(fam) < 40 else "several")
         dl = parse_diags(oo)
         if dl is None:
@@ -358,6 +367,12 @@ def attribute_stream(ck):
         # the codes must be the model's, each at least as often as the model reports it
         if set(exp) != set(errs) or any(errs.count(c) < exp.count(c) for c in set(exp)):
             fam2 = "ill-formed-attribute-accepted" if exp and not errs else ("legal-attribute-rejected" if errs and not exp else "attribute-codes-differ")
+            if ci in m_wo:
+                # what is observed lies between the model's verdict without the attributes written on underlying types and base references and its verdict
+                # with them: those attributes were parsed (argument errors are reported) but not validated (placement, repeats) -- one defect, told apart from any other
+                low = sorted(m_wo[ci].split(" ")) if m_wo[ci] != "ok" else []
+                if set(low) <= set(errs) <= set(exp) and all(errs.count(c) >= low.count(c) for c in set(low)):
+                    fam2 = "attribute-on-underlying-type-or-base-reference-not-validated"
             ck.violation("attributes", fam2, "\n--\n".join(ts), " ".join(exp) or "accepted", " ".join(errs) or "accepted", signature={"expected": " ".join(sorted(set(exp))), "observed": " ".join(sorted(set(errs)))}, detail=ml[:300])
     if seen.get(True, 0) < n // 10 or seen.get(False, 0) < n // 10:
         ck.violation("attributes", "generator-vacuous", repr(seen), "both accepted and rejected programs in quantity", repr(seen), kind="correspondence")
@@ -400,7 +415,57 @@ def attribute_stream(ck):
             ck.violation("module-rule", "module-rule-not-enforced", t, "rejected with a syntax error (E002)", " ".join(errs) or "accepted", signature={"how": how})
 
 
+def inherited_stream(ck):
+    """operations inherited through bases that share a simple name (in different modules, in different files), directly and through intermediate
+    interfaces and diamonds: redeclaring an inherited operation is E011, anything else is accepted"""
+    import itertools
+    cases = []
+    for shape, redecl, order, spelling in itertools.product(("direct", "through-mid", "both-through-mids", "diamond"), ("opA", "opB", "opC", "opMid", "none", "opA+opB"), (0, 1), ("scoped", "global")):
+        q = (lambda m, n: "::%s::%s" % (m, n)) if spelling == "global" else (lambda m, n: "%s::%s" % (m, n))
+        fa = "module A\ninterface Base { opA() }\n"
+        fb = "module B\ninterface Base { opB() }\n"
+        fc = "module C\ninterface Base { opC() }\ninterface Other { opOther() }\n"
+        body = " ".join("%s()" % r for r in redecl.split("+")) if redecl != "none" else ""
+        if shape == "direct":
+            bases, mids, inherited = [q("A", "Base"), q("B", "Base")], "", {"opA", "opB"}
+        elif shape == "through-mid":
+            mids, inherited = "module M\ninterface Mid : %s { opMid() }\n" % q("B", "Base"), {"opA", "opB", "opMid"}
+            bases = [q("A", "Base"), q("M", "Mid")]
+        elif shape == "both-through-mids":
+            mids = "module M\ninterface Mid : %s { opMid() }\n" % q("A", "Base")
+            fb2 = "module N\ninterface Mid : %s { opMid2() }\n" % q("B", "Base")
+            bases, inherited = [q("M", "Mid"), q("N", "Mid")], {"opA", "opB", "opMid", "opMid2"}
+            mids = mids + "\x00" + fb2
+        else:
+            mids = "module M\ninterface Left : %s, %s {}\ninterface Right : %s, %s {}\n" % (q("A", "Base"), q("C", "Base"), q("C", "Base"), q("B", "Base"))
+            bases, inherited = [q("M", "Left"), q("M", "Right")], {"opA", "opB", "opC"}
+        if order:
+            bases = bases[::-1]
+        fd = "module D\ninterface I : %s { %s }\n" % (", ".join(bases), body)
+        files = [fa, fb, fc] + [x for x in mids.split("\x00") if x] + [fd]
+        if order:
+            files = files[::-1]
+        want = sorted(r for r in redecl.split("+") if r in inherited)
+        cases.append((files, want, "%s:%s" % (shape, redecl)))
+    o = core.run_impl("diags", ["diags - " + " ".join(hx(t) for t in fs) for fs, _, _ in cases], chunk=100, timeout=120)
+    ck.stream("inherited-through-same-named-bases", description="an interface with two bases of one simple name in different modules and files (directly, through an intermediate interface, through two intermediates of one name, "
+              "through a diamond), the files in both orders, the bases written scoped or globally: redeclaring an operation of either base (or of an intermediate) is E011 for that operation, anything else is accepted")
+    for (fs, want, fam), oo in zip(cases, o):
+        case = "\n-- next file --\n".join(fs)
+        ck.count("inherited-through-same-named-bases", case, kind=fam)
+        dl = parse_diags(oo)
+        if dl is None:
+            ck.violation("inherited-through-same-named-bases", "crash", case, "diagnostics", oo[:200])
+            continue
+        errs = [d for d in dl if d["level"] == "Error"]
+        got = sorted(d["msg"].split("'")[1] for d in errs if d["code"] == "E011" and "'" in d["msg"])
+        if got != want or any(d["code"] != "E011" for d in errs):
+            ck.violation("inherited-through-same-named-bases", "redeclaration-accepted" if len(got) < len(want) else "inheritance-verdict-differs", case, "E011 for %s" % want if want else "accepted",
+                         " ".join("%s %s" % (d["code"], d["msg"]) for d in errs) or "accepted", signature={"shape": fam.split(":")[0]})
+
+
 def run(ck):
+    inherited_stream(ck)
     rng = ck.rng
     n = 5000 if ck.tier == "quick" else 60000
     cases = []   # (prog, family)
